@@ -295,6 +295,10 @@ func MapKeys[K comparable, V any](m map[K]V) []K {
 	return keys
 }
 
+// MapOrder is the permutation a world that perturbs map order applies to n
+// canonically ordered keys (nil: keep the canonical order).
+func MapOrder(n int) []int { return mapPerm(n) }
+
 //go:norace
 func mapPerm(n int) []int {
 	kk := K
@@ -373,4 +377,34 @@ func ChanCap(n int) int {
 		c = 8
 	}
 	return c
+}
+
+// ---- a plain choice drawn by the kernel on behalf of a goroutine ----
+
+type pickOp struct {
+	k   *Kernel
+	n   int
+	out int
+}
+
+func (pickOp) Ready() bool     { return true }
+func (o *pickOp) Do()          { o.out = o.k.Draw(o.n) }
+func (pickOp) OpName() string { return "pick" }
+
+// Pick returns a kernel-drawn value in [0,n) (recorded on the tape); 0 outside
+// a world and in kernel context. It is not a scheduling point.
+//
+//go:norace
+func Pick(n int) int {
+	k := K
+	if k == nil || k.killed || n <= 1 {
+		return 0
+	}
+	g := Cur()
+	if g == nil {
+		return 0
+	}
+	op := &pickOp{k: k, n: n}
+	trapG(k, g, op, false)
+	return op.out
 }
